@@ -150,6 +150,11 @@ def run(ctx: Ctx):
                  "    assert [{'k': 1, 'j': 5}] == snapshot([{'k': 0, 'j': 5, 'k': 2}])\n    assert 4 == snapshot()\n",
                  "    assert {'a': {'b': 1}} == snapshot({'a': {'b': 0, 'b': 2}, 'a': {'b': 3, 'c': 4}})\n"):
         progs.append({"source": H + body, "sites": [{"kind": "eq", "old": 1, "new": ("int", 1)}], "opts": {}})
+    # corpus: constructor calls with POSITIONAL arguments (defaultdict) whose previous text has fewer / no / other arguments, followed by another snapshot
+    HD = "from collections import defaultdict\nfrom inline_snapshot import snapshot\n\n\ndef test_a():\n    d = defaultdict(list)\n    d[1].append(2)\n"
+    for old in ("defaultdict(list)", "defaultdict()", "defaultdict(list, {1: [3]})", "defaultdict(list, {})", "defaultdict(int)", "[1]", ""):
+        progs.append({"source": HD + f"    assert d == snapshot({old})\n    assert 1 + 1 == snapshot(3)\n    assert 'x' == snapshot()\n",
+                      "sites": [{"kind": "eq", "old": 1, "new": ("int", 1)}] * 3, "opts": {}})
     res = pmap(run_prog, progs, chunksize=4)
     for p, o in zip(progs, res):
         from ..valgen import nontrivial
